@@ -1,10 +1,12 @@
 (* C14 driver.  in : id TAB tokens TAB path      tokens: { } [ ] , : s<hex raw> n<hex> t f z  separated by spaces
                                                 path  : "." or k<hex>/i<n>/...
-   out: id TAB G0 TAB G1 TAB S TAB N TAB P TAB F
+   (optional 5th input field: the ordinals of the containers the visitor skips, "-" or "3,7")
+   out: id TAB G0 TAB G1 TAB S TAB N TAB P TAB F TAB PS TAB FS
         G0/G1  get_by_path without / with ValidateJSON : ok:<tree> | nf | inval | patherr
         S      the specification navigate on the tree  : same alphabet
         N      Node.GetByPath on a raw root (the C15 node model, OpLook): K:...
-        P      preorder event list of the traverser model ; F the flattening of the tree (specification) *)
+        P      preorder event list of the traverser model ; F the flattening of the tree (specification)
+        PS/FS  the same with a visitor answering VisitOPSkip at the given containers (model / specification) *)
 open BinNums
 open Datatypes
 open Tree
@@ -116,5 +118,11 @@ let () =
         | None -> "?undecodable") in
       let p = pevs_s (preorder toks) in
       let fl = pevs_s (flatten doc) in
-      Stdlib.Printf.printf "%s\t%s\t%s\t%s\t%s\t%s\t%s\n" f.(0) g0 g1 s n p fl
+      let skips =
+        if Stdlib.Array.length f > 4 && f.(4) <> "-" && f.(4) <> "" then
+          Stdlib.List.map (fun x -> nat_of_int (int_of_string x)) (Stdlib.String.split_on_char ',' f.(4))
+        else [] in
+      let ps = pevs_s (preorder_skip (skip_of skips) toks) in
+      let fs = pevs_s (match flatten_skip (skip_of skips) doc O with Some (evs, _) -> Some evs | None -> None) in
+      Stdlib.Printf.printf "%s\t%s\t%s\t%s\t%s\t%s\t%s\t%s\t%s\n" f.(0) g0 g1 s n p fl ps fs
     end)
